@@ -15,6 +15,8 @@ import (
 	_ "verifsim/worlds/stateworld"
 	_ "verifsim/worlds/votedbworld"
 	_ "verifsim/worlds/networld"
+	_ "verifsim/worlds/dlqworld"
+	_ "verifsim/worlds/versionworld"
 )
 
 var userArgs []string
